@@ -209,6 +209,15 @@ def check(run) -> None:
     recs = B.records(jobs, workers=8)
     verdicts = judge(recs, sfile, run, "host API: inspect + real parser vs Bind")
     report(run, cals, recs, verdicts)
+    # 3b. the same shapes of statement-form device methods inside a block, directly after a call that passes every parameter:
+    #     a binding must not depend on the statement before it (an omitted argument is the default, not the previous value)
+    ok_alone = {r["id"] for r in recs if r["st"] == "accepted" and verdicts[r["id"]]["legal"]}
+    bjobs = [(c, sh, "b" + rid[1:], 1) for (c, sh, rid) in jobs if rid in ok_alone and B.primed(cals[c])]
+    brecs = [r for r in B.records(bjobs, workers=8) if r["st"] != "unprimed"]
+    if brecs:
+        bverd = judge(brecs, sfile, run, "host API, call placed behind a priming call in a block")
+        report(run, cals, brecs, bverd)
+    run.cov["shapes_behind_priming_call"] = len(brecs)
     # vacuity guards: every failure reason and every action of the machine was exercised on the real signatures
     reasons = Counter(v["reason"] for v in verdicts.values() if not v["legal"])
     if set(reasons) != {"too-many-positionals", "duplicate", "unknown-keyword", "missing-required"}:
